@@ -2,8 +2,9 @@
 (***************************************************************************)
 (* Use (A)+(B) of Prune.  Every scenario is ONE initial state:             *)
 (*   a commit DAG with MinN..N commits (parents among earlier commits, at  *)
-(*   most two), each commit naming one of three fixed tables that share    *)
-(*   blocks (T1 = {b1,b2}, T2 = {b2,b3}, T3 = {b4}), every subset of the   *)
+(*   most two), each commit naming one of four fixed tables that share     *)
+(*   blocks (T1 = {b1,b2}, T2 = {b2,b3}, T3 = {b4}, T4 = T1's blocks under *)
+(*   another primary key: same blocks, other block indices), every subset of the *)
 (*   commits carrying a ref (the kind - head, tag, remote-tracking,        *)
 (*   transaction - rotates), every subset of the tables absent from the    *)
 (*   store (commits naming them are shallow).                              *)
@@ -14,12 +15,16 @@
 (***************************************************************************)
 EXTENDS Prune, TLC, Json
 
-CONSTANTS N, MinN,
+CONSTANTS N, MinN, NTables,
+          TwinOnly,          \* TRUE: only scenarios in which some commit names T4, with at most T1 or T4 absent
+                             \* (the dimension T4 adds; the rest is enumerated by the three-table configuration)
           Shard, NShards     \* this TLC process enumerates the scenarios whose absent set has
                              \* code = Shard (mod NShards); 0, 1 = everything
 
-Tables    == 1..3
-Blk       == <<{1, 2}, {2, 3}, {4}>>
+Tables    == 1..NTables
+Blk       == <<{1, 2}, {2, 3}, {4}, {1, 2}>>
+KV        == <<0, 0, 0, 1>>          \* key variant of a table: its block indices are named block + 100 * variant
+Bix       == [u \in 1..4 |-> {y + 100 * KV[u] : y \in Blk[u]}]
 NoProfile == {2}            \* table 2 never had a profile ("wherever those existed before")
 
 Parents(x) == {P \in SUBSET (1..(x-1)) : Cardinality(P) <= 2}
@@ -27,11 +32,12 @@ Parents(x) == {P \in SUBSET (1..(x-1)) : Cardinality(P) <= 2}
 Store0(n, abs) ==
   LET pt == Tables \ abs
       pb == UNION {Blk[u] : u \in pt} IN
-  [c |-> 1..n, t |-> pt, ti |-> pt, p |-> pt \ NoProfile, b |-> pb, bi |-> pb]
+  [c |-> 1..n, t |-> pt, ti |-> pt, p |-> pt \ NoProfile, b |-> pb, bi |-> UNION {Bix[u] : u \in pt}]
 
 RefKinds == <<"head", "tag", "remote", "txn">>
 SumTab(n, tab) == LET F[k \in 0..n] == IF k = 0 THEN 0 ELSE F[k-1] + tab[k] IN F[n]
 AbsCode(abs) == (IF 1 \in abs THEN 1 ELSE 0) + (IF 2 \in abs THEN 2 ELSE 0) + (IF 3 \in abs THEN 4 ELSE 0)
+                + (IF 4 \in abs THEN 8 ELSE 0)
 KindOf(x, n, tab) == RefKinds[((x + SumTab(n, tab)) % 4) + 1]
 
 Scn(r, s, abs) ==
@@ -49,9 +55,11 @@ Init ==
     \E par \in [1..n -> SUBSET (1..n)] :
       /\ \A x \in 1..n : par[x] \in Parents(x)
       /\ \E tab \in [1..n -> Tables] :
-           \E roots \in SUBSET (1..n) :
-             \E abs \in {a \in SUBSET Tables : AbsCode(a) % NShards = Shard} :
-               LET r == [n |-> n, par |-> par, tab |-> tab, blk |-> Blk, roots |-> roots]
+           /\ TwinOnly => \E x \in 1..n : tab[x] = 4
+           /\ \E roots \in SUBSET (1..n) :
+             \E abs \in {a \in SUBSET Tables : /\ AbsCode(a) % NShards = Shard
+                                                /\ TwinOnly => a \in {{}, {1}, {4}}} :
+               LET r == [n |-> n, par |-> par, tab |-> tab, blk |-> Blk, bix |-> Bix, roots |-> roots]
                    s == Store0(n, abs) IN
                /\ Start(r, s)
                /\ PrintT(<<"SCN", ToJson(Scn(r, s, abs))>>)
